@@ -193,6 +193,19 @@ def check(prop, tier, seed):
             sc["frames"] = frames
         scripts.append(sc)
         tid += 1
+    # bursts: many threads drain a long free list at once (and run past its end), nothing else going on
+    for i in range(8 if tier == "quick" else 60):
+        nt = [4, 8, 16, 8][i % 4]
+        nfree = rng.choice([300, 800, 1500])
+        nalive = rng.randint(1, 4)
+        ids = list(range(nalive + nfree))
+        free = ids[nalive:]
+        rng.shuffle(free)
+        per = (nfree + rng.choice([-40, 0, 60])) // nt
+        progs = [[["create"] if rng.random() < 0.9 else ["create_iter"] for _ in range(per)] for _ in range(nt)]
+        scripts.append({"tid": tid, "mode": "free", "alive_ids": ids[:nalive], "free_seq": free, "progs": progs, "schedule": [],
+                        "post": 0})
+        tid += 1
     workdir = os.path.join(C.OUT, "work", "%s_%d" % (key, os.getpid()))
     C.sh(["rm", "-rf", workdir])
     r = C.exec_and_validate("conc", scripts, workdir, "Conc_Trace.tla", "Conc_Trace.cfg", events_per_chunk=300)
